@@ -394,6 +394,9 @@ func (it *Interp) inline(fr *Frame, fi *load.FuncInfo, recv Value, args []Value,
 	if it.Mode == ModeContracts && fi.Fn.Name() == "Compute" && isIndicatorPkg(fi.Pkg.PkgPath) {
 		if o, ok := recv.(*Object); ok && it.hasMethod(o, "IdlePeriod") {
 			it.applyContract(fr, o, args, ret, call)
+			if it.res != nil {
+				it.res.ContractsUsed[o.TypeName()] = true
+			}
 		}
 	}
 	return ret
